@@ -58,7 +58,7 @@ func traverse(context Context, matchingNode *CandidateNode, operation *Operation
 
 	case SequenceNode:
 		log.Debug("its a sequence of %v things!", len(matchingNode.Content))
-		return traverseArray(matchingNode, operation, operation.Preferences.(traversePreferences))
+		return traverseArray(context, matchingNode, operation, operation.Preferences.(traversePreferences))
 
 	case AliasNode:
 		log.Debug("its an alias!")
@@ -139,7 +139,7 @@ func traverseArrayIndices(context Context, matchingNode *CandidateNode, indicesT
 		matchingNode = matchingNode.Alias
 		return traverseArrayIndices(context, matchingNode, indicesToTraverse, prefs)
 	} else if matchingNode.Kind == SequenceNode {
-		return traverseArrayWithIndices(matchingNode, indicesToTraverse, prefs)
+		return traverseArrayWithIndices(context, matchingNode, indicesToTraverse, prefs)
 	} else if matchingNode.Kind == MappingNode {
 		return traverseMapWithIndices(context, matchingNode, indicesToTraverse, prefs)
 	}
@@ -166,7 +166,7 @@ func traverseMapWithIndices(context Context, candidate *CandidateNode, indices [
 	return matchingNodeMap, nil
 }
 
-func traverseArrayWithIndices(node *CandidateNode, indices []*CandidateNode, prefs traversePreferences) (*list.List, error) {
+func traverseArrayWithIndices(context Context, node *CandidateNode, indices []*CandidateNode, prefs traversePreferences) (*list.List, error) {
 	log.Debug("traverseArrayWithIndices")
 	var newMatches = list.New()
 	if len(indices) == 0 {
@@ -190,6 +190,18 @@ func traverseArrayWithIndices(node *CandidateNode, indices []*CandidateNode, pre
 		}
 		indexToUse := index
 		contentLength := len(node.Content)
+		if contentLength <= index && (prefs.DontAutoCreate || context.DontAutoCreate) {
+			// read-only traversal: answer with a null that is not attached to the
+			// sequence, instead of padding the sequence up to the index
+			valueNode := node.CreateChild()
+			valueNode.Kind = ScalarNode
+			valueNode.Tag = "!!null"
+			valueNode.Value = "null"
+			valueNode.Key = createScalarNode(index, fmt.Sprintf("%v", index))
+			valueNode.Key.SetParent(node)
+			newMatches.PushBack(valueNode)
+			continue
+		}
 		for contentLength <= index {
 			if contentLength == 0 {
 				// default to nice yaml formatting
@@ -309,8 +321,8 @@ func traverseMergeAnchor(newMatches *orderedmap.OrderedMap, value *CandidateNode
 	return nil
 }
 
-func traverseArray(candidate *CandidateNode, operation *Operation, prefs traversePreferences) (*list.List, error) {
+func traverseArray(context Context, candidate *CandidateNode, operation *Operation, prefs traversePreferences) (*list.List, error) {
 	log.Debug("operation Value %v", operation.Value)
 	indices := []*CandidateNode{{Value: operation.StringValue}}
-	return traverseArrayWithIndices(candidate, indices, prefs)
+	return traverseArrayWithIndices(context, candidate, indices, prefs)
 }
